@@ -81,6 +81,12 @@ SpyTrees ==
         op1 \in {"and", "or"}, op2 \in {"and", "or"}, l \in {LB(TRUE), LB(FALSE)}, m \in {LB(TRUE), LB(FALSE)}, r \in {LB(TRUE), LB(FALSE)}}
     \cup {[ty |-> "bool", e |-> Bin(op1, Spy("sp", "s1", l), Bin(op2, Spy("sp", "s2", m), Spy("sp", "s3", r)))] :
         op1 \in {"and", "or"}, op2 \in {"and", "or"}, l \in {LB(TRUE), LB(FALSE)}, m \in {LB(TRUE), LB(FALSE)}, r \in {LB(TRUE), LB(FALSE)}}
+    \* and / or decide by truthiness of any value, and still skip the right operand
+    \cup {[ty |-> "bool", e |-> Bin(op, Spy("sp", "s1", l), Spy("sp", "s2", r))] :
+        op \in {"and", "or"}, l \in {LI(0), LI(5), LS(<<>>), LS(<<97>>), Lit(Null), Arr(<<>>), Arr(<<LI(0)>>), Var("a"), Bin("-", Var("a"), Var("a"))},
+        r \in {LB(TRUE), LI(0), LS(<<97>>)}}
+    \cup {[ty |-> "bool", e |-> Bin(op, l, Bin(">", Bin("/", LI(6), Spy("sp", "s2", r)), LI(1)))] :
+        op \in {"and", "or"}, l \in {LI(0), LI(5), Var("a"), Bin("-", Var("a"), Var("a")), LS(<<>>)}, r \in {LI(2), LI(3)}}
     \cup {[ty |-> "int", e |-> Cond(Spy("sp", "s1", c), Spy("sp", "s2", LI(2)), Spy("sp", "s3", LI(3)))] :
         c \in {LB(TRUE), LB(FALSE), LI(0), LI(5)}}
     \cup {[ty |-> "int", e |-> Cond(Bin(op, l, r), Bin("+", LI(1), Spy("sp", "s2", LI(2))), Bin("*", Spy("sp", "s3", LI(3)), LI(2)))] :
